@@ -69,6 +69,9 @@ def cases(tier, seed):
         out.append(dict(mode="model", mask=m, dir=di, scheme=sch, speed=0.9 if (di + seed) % 2 else 0.3))
     for m, di in itertools.product(["sea", "island"], [0, 3, 5] if tier == "quick" else range(8)):
         out.append(dict(mode="model", mask=m, dir=di, scheme="EF", speed=0.9, layout="dense"))
+    # beyond the lattice: a grid with more cells than fit in 15 or 16 bits, land and open boundary far from the origin
+    for di in (0, 2, 4, 6):
+        out.append(dict(mode="biggrid", dir=di, scheme="EF" if di % 4 == 0 else "RK4"))
     return out
 
 
@@ -228,6 +231,65 @@ def run_exact(case, dev=None):
     return bad, facts
 
 
+def run_biggrid(case):
+    """260 x 300 cells; islands and the far corner lie where a flat cell number exceeds 2**15 and 2**16."""
+    from ladim.ROMS import Grid
+    from ladim.state import State
+    from ladim.timekeeper import TimeKeeper
+    from ladim.tracker import Tracker
+
+    imax, jmax = 260, 300
+    m = np.ones((jmax, imax))
+    islands = [(40, 30), (200, 120), (100, 130), (230, 252), (20, 280), (250, 290)]  # (i, j): flat numbers 7840 ... 75650
+    for i, j in islands:
+        m[j - 1 : j + 2, i - 1 : i + 2] = 0
+    w = world.World(imax=imax, jmax=jmax, N=2, h=30.0, mask=m, dx=DX)
+    d = util.scratch("c09b")
+    f = w.write_file(d / "g.nc", [dict(t=S0, **w.zeros())])
+    ux, uy = DIRS[case["dir"]]
+    vx, vy = ux * 0.6 * 1.0123, uy * 0.6 * 0.9871
+    mods = {}
+    mods["time"] = TimeKeeper(start=world.iso(S0), stop=world.iso(S0 + 100 * DT), dt=DT)
+    mods["state"] = st = State()
+    mods["grid"] = Grid(f)
+    mods["forcing"] = fo = plugin("aforce").Forcing(mods, field="const", params=dict(a=vx / DT, b=vy / DT, L=DX), record=False)
+    mods["tracker"] = tr = Tracker(advection=case["scheme"], modules=mods)
+    P = []
+    for i, j in islands:  # a ring of sea positions around each island, two cells out
+        for ox, oy in itertools.product((-2.3, -1.6, 0.0, 1.6, 2.3), repeat=2):
+            if max(abs(ox), abs(oy)) > 1.5 and 1.5 < i + ox < imax - 2.5 and 1.5 < j + oy < jmax - 2.5:
+                P.append((i + ox, j + oy))
+    P += [(imax - 2.9, jmax - 2.8), (imax - 3.4, 5.2), (4.6, jmax - 3.3)]  # near the far corners of the open boundary
+    st.append(X=np.array([p[0] for p in P]), Y=np.array([p[1] for p in P]), Z=5.0)
+    n = len(P)
+    pos, alive = [list(p) for p in P], [True] * n
+    viols, facts = [], dict(left=0, land=0)
+    for step in range(4):
+        mods["time"].update()
+        fo.update()
+        try:
+            tr.update()
+        except Exception as e:
+            return util.result(viol=[util.viol("biggrid:exception", f"{case}: step {step}: {e!r}", case)], nontrivial=1)
+        for k in range(n):
+            if alive[k]:
+                tx, ty = pos[k][0] + vx, pos[k][1] + vy
+                if not (1.5 < tx < imax - 2.5 and 1.5 < ty < jmax - 2.5):
+                    alive[k] = False
+                    facts["left"] += 1
+                elif m[int(round(ty)), int(round(tx))] < 1:
+                    facts["land"] += 1
+                else:
+                    pos[k] = [tx, ty]
+            gx, gy, ga = float(st.X[k]), float(st.Y[k]), bool(st.alive[k])
+            if ga != alive[k] and not viols:
+                viols.append(util.viol("biggrid:alive", f"{case} step {step} particle at {P[k]}: alive={ga} expected {alive[k]}", case))
+            if ga and (abs(gx - pos[k][0]) > 1e-9 or abs(gy - pos[k][1]) > 1e-9) and not viols:
+                on = m[int(round(gy)), int(round(gx))] < 1
+                viols.append(util.viol("biggrid:on-land" if on else "biggrid:position", f"{case} step {step} particle started at {P[k]}: at ({gx},{gy}){' IN A LAND CELL' if on else ''} expected ({pos[k][0]},{pos[k][1]})", case))
+    return util.result(evals=4 * n, nontrivial=int(facts["land"] > 0 and facts["left"] > 0) * 4 * n, viol=viols, outcomes=[["biggrid", facts["land"] > 0, facts["left"] > 0]], states=4 * n, transitions=4 * n, sample=dict(case, particles=n))
+
+
 def dev_scripts(case):
     """Deviation scripts: slots = (step 0..2) x (u,v) x (particle 0, particle n//2)."""
     slots = [(2 * s + c, which) for s in range(3) for c in range(2) for which in (0, 1)]
@@ -311,6 +373,8 @@ def run_model(case):
 def run_case(case):
     viols, n, nt = [], 0, 0
     outcomes = set()
+    if case["mode"] == "biggrid":
+        return run_biggrid(case)
     if case["mode"] == "exact":
         bad, facts = run_exact(case)
         runs = [(bad, facts, case)]
